@@ -435,6 +435,19 @@ def search(payload):
     fails = []
     rows = count_search(payload, fails)
     n = mutation_search(payload, fails) + lazy_search(fails) + no_raise_search(fails)
+    # HISTORY (history.py): optimize() must keep returning (and returning the same function) after calls that raised: a tree beyond
+    # the recursion limit, constants that cannot be compared
+    small = [t for _, t in gen.all_prop_trees(4, ["a", "b"])][:: 5]
+    _lim = sys.getrecursionlimit()
+    sys.setrecursionlimit(1000)                 # the interpreter's default: what a user's process runs with
+    try:
+        hn, hfails = oc.history_search("C12", payload, small[:90], [], assignments=True)
+    finally:
+        sys.setrecursionlimit(_lim)
+    for f in hfails:
+        f["kind"] = "optimize() raised / answered differently later in the same process"
+    n += hn
+    fails += hfails
     worst = max(rows, key=lambda r: r["optimize_calls"] / max(1, r["nodes"]) ** 2)
     return {"evaluations": n + len(rows), "failures": fails[:5], "known_hits": [],
             "call_counts": rows, "worst_ratio_calls_over_n2": round(worst["optimize_calls"] / worst["nodes"] ** 2, 4),
